@@ -4,6 +4,7 @@ import TdxModel.Drive.Abi
 import TdxModel.Drive.Retry
 import TdxModel.Drive.Validate
 import TdxModel.Drive.Rtmr
+import TdxModel.Drive.PckExt
 
 open Tdx Tdx.Proto Tdx.Drive
 
@@ -18,6 +19,7 @@ def dispatch (l : Line) : P String :=
   | "C14.conv" => c14conv l
   | "C14.val" => c14val l
   | "C17" => c17 l
+  | "C13" => c13 l
   | op => .error s!"unknown op {op}"
 
 partial def loop (h : IO.FS.Stream) (out : IO.FS.Stream) (blobs : List (Nat × Bytes)) : IO Unit := do
